@@ -552,5 +552,6 @@ pub fn check() -> Check {
             Workload { name: "config_ctor", f: config_ctor, quick: 20, thorough: 65_536, flav: Flav::Both },
         ],
         exhaustive: false,
+        aggregate: None,
     }
 }
